@@ -175,6 +175,7 @@ class ScriptedPort(ebbfake.PortExtras):
                          "n": "", "v": [0, 0], "sarg": ""})
 
     def write(self, raw):
+        self.count_read(reset=True)
         text = raw.decode("ascii", "replace")
         body = text.rstrip("\r")
         if body == "v" or (body == "V" and self.fresh):            # identification probe (the EBB reads command names case-insensitively)
@@ -216,6 +217,7 @@ class ScriptedPort(ebbfake.PortExtras):
         return len(raw)
 
     def readline(self):
+        self.count_read()
         if self.hand is not None:
             kind, text = self.hand
             self.hand = None
@@ -359,6 +361,11 @@ class Session:
         nclose = len(CLOSE_RAISED)
         try:
             val = dispatch(obj, m, a, s, ws)
+        except ebbfake.Endless:
+            rec["raised"] = True
+            rec["exc"] = "does not return (more than %d reads in a row)" % ebbfake.MAX_READS
+            self.cur_ops[:] = [o for o in self.cur_ops if o["k"] == "w"][:50]          # the reads of an endless loop are not evidence of anything else
+            val = None
         except Exception as ex:  # pylint: disable=broad-except
             rec["raised"] = True
             rec["exc"] = type(ex).__name__ + ": " + str(ex)[:80]
